@@ -38,8 +38,7 @@ TRUSTED_BASE = [
     "return the DTW value of the specification, by the corner read or the two end-of-series scans, with the sqrt pass "
     "when asked (C04_c_wps_kernel_returns_the_dtw_value); the same for the Euclidean twin "
     "(C04_c_wps_euclidean_kernel_as_written); the bounded run of the squared kernel is proved under C03 "
-    "(C03_c_wps_kernel_with_bound_as_written: cells equal or both above the bound); the bounded run of the Euclidean twin "
-    "and the -1 marks of the kernels are "
+    "(C03_c_wps[_euclidean]_kernel_with_bound_as_written: cells equal or both above the bound); the -1 marks of the kernels are "
     "regenerated too and tied by correspondence (site c.wpsk: extracted regenerated kernels vs the compiled ones, "
     "cell by cell); dtw_expand_wps_slice is regenerated whole as well (Gen_cexpw.v), PROVED to copy every kept cell of "
     "the compact array to its place in the block for every slice, all accesses in range (C04_c_fill_then_expand_as_written, "
